@@ -27,10 +27,13 @@ pub struct Case {
     pub seed: u64,
     pub idx: u64,
     pub gen_class: u64,
+    /// 1..4: the server sends a Set Error Info PDU with ERRINFO_NONE (0: "no error", to be ignored; the client announces
+    /// support for that PDU) ahead of its synchronize / control-cooperate / control-granted / font-map PDU of every activation
+    pub errinfo_before: usize,
 }
 
 fn describe(c: &Case) -> Value {
-    json!({"transport": c.transport, "class": c.class, "gen": [c.gen_class, c.idx, c.seed], "cfg": c.cfg.to_json(),
+    json!({"transport": c.transport, "class": c.class, "gen": [c.gen_class, c.idx, c.seed], "cfg": c.cfg.to_json(), "errinfo_before": c.errinfo_before,
            "profile": {"selected": c.profile.selected_protocol, "user_id": c.profile.user_id, "share_id": c.profile.share_id, "version": c.profile.version,
                         "core_optional": c.profile.core_optional, "extra_blocks": c.profile.extra_blocks.len(), "block_order": c.profile.block_order,
                         "caps": c.profile.caps.iter().map(|(t, b)| json!([t, b.len()])).collect::<Vec<_>>(), "license": format!("{:?}", c.profile.license).chars().take(60).collect::<String>()},
@@ -90,6 +93,7 @@ pub fn make_case(class: u64, idx: u64, seed: u64) -> Case {
         seed,
         idx,
         gen_class: class,
+        errinfo_before: 0,
     };
     // drawn last so that the rest of the case does not depend on them
     if r.chance(1, 4) {
@@ -97,6 +101,9 @@ pub fn make_case(class: u64, idx: u64, seed: u64) -> Case {
     }
     if tls && r.chance(1, 6) {
         case.tls_identity = *r.pick(&crate::tls::SPECIAL_IDENTITIES);
+    }
+    if r.chance(1, 4) {
+        case.errinfo_before = 1 + r.below(4) as usize;
     }
     case
 }
@@ -123,6 +130,15 @@ pub fn drive(c: &Case) -> Result<Outcome, mon::PanicInfo> {
         s.write_chunk = c.write_chunk;
         s.nla_cfg = nla;
     });
+    let extra = if c.errinfo_before > 0 { 1 } else { 0 };
+    if c.errinfo_before > 0 {
+        let target = ["synchronize", "control-cooperate", "control-granted", "font-map"][c.errinfo_before - 1];
+        d.with(|s| {
+            let p = s.profile.clone();
+            let info = s.wrap(&crate::refs::proto::set_error_info(&p, p.share_id, 0), crate::server::Wrap::Sdi).v;
+            s.frame_hook = Some(Box::new(move |k, f| if k == target { Some([info.clone(), f.v.clone()].concat()) } else { None }));
+        });
+    }
     let probe = d.clone();
     let cfg = c.cfg.clone();
     let tls = c.transport == "tls";
@@ -169,7 +185,7 @@ pub fn drive(c: &Case) -> Result<Outcome, mon::PanicInfo> {
                         }
                     }
                 };
-                rd(&mut cl, 5, &mut reads);
+                rd(&mut cl, 5 + extra, &mut reads);
                 for sid in react {
                     d.with(|s| {
                         let p = s.profile.clone();
@@ -178,7 +194,7 @@ pub fn drive(c: &Case) -> Result<Outcome, mon::PanicInfo> {
                         s.next_share_id = sid;
                         s.send_demand_active(sid);
                     });
-                    rd(&mut cl, 6, &mut reads);
+                    rd(&mut cl, 6 + extra, &mut reads);
                 }
                 shutdown = Some(cl.shutdown().map_err(|e| client::err_kind(&e)));
                 Ok(())
